@@ -53,7 +53,9 @@ RULE = (
     "and redundant parentheses, 1-4 constraints, as str / list of str / dict; ~15% carry an injected fault (product of two "
     "non-constant factors, non-constant or zero divisor, unknown name, string literal, tuple under an operator); plus a "
     "malformed stream (templates + character mutations); a share goes through ModelSpec.get_linear_constraints on real "
-    "model-matrix column names. non-trivial = the specification contains a binary operator and a column name"
+    "model-matrix column names; plus a history stream: ONE specification compiled 3-6 times in the same process against "
+    "permuted / extended / shrunk column lists and through the three forms, every step compared with the model (a pure "
+    "function of (spec, names)) and with the oracle for its own column order. non-trivial = the specification contains a binary operator and a column name"
 )
 
 # ----------------------------------------------------------------------------- generator
@@ -287,9 +289,69 @@ MALFORMED = [
 ALPHABET = list("ab()+-*/=, 01.`'") + ["zz", "x1"]
 
 
+DICT_VALUES = ["0", "1", "-2", "3", "0.5", "-1.25", "10", "0.0"]
+
+
+def _as_form(rng, form, cons, values=None):
+    """the same written constraints as a str / list of str / mapping"""
+    if form == "str":
+        return ",".join(cons)
+    if form == "list":
+        return list(cons)
+    keys = []
+    for c in cons:
+        if c not in keys:
+            keys.append(c)
+    values = values or {}
+    return [[key, values.get(key) or rng.choice(DICT_VALUES)] for key in keys]
+
+
+def _history(rng):
+    """ONE specification compiled several times in the same process: against permuted, extended and shrunk
+    column lists and through the three forms. `from_spec` must be a pure function of (spec, names): every step
+    is compared with the model and with the oracle for ITS OWN column order."""
+    pool = list(dict.fromkeys(PLAIN + ODD + CALLS))  # distinct names: a permutation must be observable
+    k = rng.randint(2, 6)
+    names = rng.sample(pool, k)
+    depth = rng.choice([1, 2, 2, 3, 3, 4])
+    ncons = rng.choice([1, 1, 2, 2, 3])
+    cons_x = [_constraint(rng, names, depth, first=(q == 0)) for q in range(ncons)]
+    cons = [t for t, _ in cons_x]
+    exact = all(x for _, x in cons_x)
+    form = rng.choice(["str", "str", "list", "dict"])
+    values = {c: rng.choice(DICT_VALUES) for c in cons}
+    steps = [dict(names=list(names), form=form, spec=_as_form(rng, form, cons, values), via="from_spec", exact=exact)]
+    cur = list(names)
+    for _ in range(rng.choice([2, 3, 3, 4, 5])):
+        r = rng.random()
+        nm = list(cur)
+        if r < 0.45 and len(nm) > 1:
+            for _try in range(20):
+                rng.shuffle(nm)
+                if nm != cur:
+                    break
+        elif r < 0.6:
+            extra = rng.choice([x for x in pool if x not in nm])
+            nm.insert(rng.randrange(len(nm) + 1), extra)
+            if rng.random() < 0.5:
+                rng.shuffle(nm)
+        elif r < 0.72 and len(nm) > 1:
+            nm.pop(rng.randrange(len(nm)))  # may remove a used column: KeyError expected then
+        elif r < 0.8:
+            nm = list(names)  # back to the first layout
+        if rng.random() < 0.35:
+            form = rng.choice(["str", "list", "dict"])
+        cur = nm
+        steps.append(dict(names=list(nm), form=form, spec=_as_form(rng, form, cons, values), via="from_spec", exact=exact))
+    return dict(history=steps)
+
+
 def cases(rng, tier):
     n = {"quick": 700, "thorough": 12000, "search": 300}[tier]
     nmal = {"quick": 260, "thorough": 2500, "search": 60}[tier]
+    nhist = {"quick": 150, "thorough": 2000, "search": 120}[tier]
+    for i in range(nhist):
+        yield _history(rng)
     for i in range(n):
         k = rng.randint(1, 6)
         pool = PLAIN + ODD + CALLS
@@ -360,6 +422,8 @@ def cases(rng, tier):
 
 
 def describe(c):
+    if "history" in c:
+        return f"history,steps={len(c['history'])},{c['history'][0]['form']}"
     txt = _text(c)
     ops = sum(txt.count(o) for o in "+-*/")
     size = "ops0" if ops == 0 else "ops1-3" if ops <= 3 else "ops4-10" if ops <= 10 else "ops11+"
@@ -375,6 +439,8 @@ def _text(c):
 
 
 def nontrivial(c):
+    if "history" in c:
+        return any(nontrivial(s) for s in c["history"])
     t = _text(c)
     return any(o in t for o in "+-*/=") and any(ch.isalpha() for ch in t)
 
@@ -437,6 +503,13 @@ def _strings(c):
 
 
 def impl(c):
+    if "history" in c:
+        # the steps run one after the other in this process: any state the library keeps between calls is live
+        return dict(steps=[_impl_one(s) for s in c["history"]])
+    return _impl_one(c)
+
+
+def _impl_one(c):
     from formulaic.utils.constraints import LinearConstraints
 
     names = list(c["names"])
@@ -466,6 +539,13 @@ def impl(c):
 
 
 def request(c, o):
+    if "history" in c:
+        outs = o.get("steps") or [{}] * len(c["history"])
+        return dict(steps=[_request_one(s, so) for s, so in zip(c["history"], outs)])
+    return _request_one(c, o)
+
+
+def _request_one(c, o):
     spec = c["spec"]
     if c["form"] == "dict":
         spec = [[k, _frac(Fraction(v))] for k, v in c["spec"]]
@@ -477,6 +557,19 @@ def agree(c, o, m):
         return "driver: " + m["driver_error"][:300]
     if "harness_exception" in o:
         return "harness: " + o["harness_exception"]
+    if "history" in c:
+        ms = m.get("steps")
+        if not isinstance(ms, list) or len(ms) != len(c["history"]):
+            return "model did not answer every step of the history"
+        for i, (s, so, sm) in enumerate(zip(c["history"], o["steps"], ms)):
+            w = _agree_one(s, so, sm)
+            if w:
+                return f"step {i} (columns {s['names']}): {w}"
+        return None
+    return _agree_one(c, o, m)
+
+
+def _agree_one(c, o, m):
     if m.get("error") == "unmodelled":
         return "the AST contains an operator outside the modelled constraint table"
     if "error" in o:
@@ -771,6 +864,19 @@ def _written(c):
 def oracle(c, o):
     if "harness_exception" in o:
         return "harness could not run the implementation: " + o["harness_exception"]
+    if "history" in c:
+        for i, (s, so) in enumerate(zip(c["history"], o["steps"])):
+            w = _oracle_one(s, so)
+            if w:
+                return (
+                    f"step {i} of a sequence of compilations in one process (columns {s['names']}, form {s['form']}; "
+                    f"earlier steps used {[h['names'] for h in c['history'][:i]]}): {w}"
+                )
+        return None
+    return _oracle_one(c, o)
+
+
+def _oracle_one(c, o):
     names = list(c["names"])
     try:
         cons = _written(c)
